@@ -124,6 +124,17 @@ def _mk_bad(case):
         return pd.Index(np.array(base + [base[case["i"] % len(base)]], dtype="int64"))
     if k == "dup_index_sorted":
         return pd.Index(np.array(sorted(base + [base[case["i"] % len(base)]]), dtype="int64"))
+    if k in ("dup_list_sorted", "dup_array_sorted"):
+        v = sorted(base + [base[case["i"] % len(base)]])
+        return v if k == "dup_list_sorted" else np.array(v, dtype="int64")
+    if k in ("dup_list_gap", "dup_array_gap"):
+        # ordered steps in which every repeated step is made up for by a missing one
+        # (same first and last value and same count as a run of consecutive steps)
+        a, n = min(base), len(base) + 2
+        run = list(range(a, a + n))
+        j = 1 + case["i"] % (n - 2)
+        run[j] = run[j - 1]
+        return run if k == "dup_list_gap" else np.array(run, dtype="int64")
     if k == "frac_list":
         b = [float(v) for v in base]
         b[case["i"] % len(b)] += case["frac"]
@@ -151,7 +162,7 @@ def _mk_bad(case):
     raise ValueError(k)
 
 
-BAD_VALUE_ERR = ("dup_list", "dup_array", "dup_index", "dup_index_sorted")
+BAD_VALUE_ERR = ("dup_list", "dup_array", "dup_index", "dup_index_sorted", "dup_list_sorted", "dup_array_sorted", "dup_list_gap", "dup_array_gap")
 BAD_TYPE_ERR = ("str", "float_scalar", "tuple", "set", "dict", "none", "object")
 BAD_EITHER = ("frac_list", "frac_array", "str_list")
 
